@@ -251,7 +251,7 @@ func r05_3(c *Ctx, rule string) {
 	}
 	// h = ch(stat) with stat = fi.Sys().(*types.Stat)
 	var hcall *ssa.Call
-	for _, call := range c.P.CallsTo(nh, "param:"+chParam.Name()) {
+	for _, call := range c.P.CallsTo(nh, "param:"+c.P.ParamName(chParam)) {
 		hcall, _ = call.(*ssa.Call)
 	}
 	if hcall == nil {
@@ -423,6 +423,10 @@ func r05_3(c *Ctx, rule string) {
 // in the separator), directly or through a cell only ever assigned such
 // values or the empty string.
 func sepTerminated(c *Ctx, v ssa.Value, allowEmpty bool, depth int) (bool, string) {
+	return sepTerminatedSeen(c, v, allowEmpty, depth, map[*ssa.Phi]bool{})
+}
+
+func sepTerminatedSeen(c *Ctx, v ssa.Value, allowEmpty bool, depth int, seen map[*ssa.Phi]bool) (bool, string) {
 	sep := "/"
 	if c.P.GOOS == "windows" {
 		sep = `\`
@@ -433,7 +437,7 @@ func sepTerminated(c *Ctx, v ssa.Value, allowEmpty bool, depth int) (bool, strin
 	if rs := eng.ResolveAll(v); len(rs) != 1 || rs[0] != v {
 		// a helper parameter or result: every value it can stand for
 		for _, r := range rs {
-			if ok, why := sepTerminated(c, r, allowEmpty, depth+1); !ok {
+			if ok, why := sepTerminatedSeen(c, r, allowEmpty, depth+1, seen); !ok {
 				return false, why
 			}
 		}
@@ -448,15 +452,21 @@ func sepTerminated(c *Ctx, v ssa.Value, allowEmpty bool, depth int) (bool, strin
 		return false, fmt.Sprintf("constant %q does not end in the separator", s)
 	case *ssa.BinOp:
 		if x.Op == token.ADD {
-			return sepTerminated(c, x.Y, false, depth+1)
+			return sepTerminatedSeen(c, x.Y, false, depth+1, seen)
 		}
 	case *ssa.Convert:
 		if k, ok := eng.ConstInt(x.X); ok && (string(rune(k)) == sep || k == '/') {
 			return true, ""
 		}
 	case *ssa.Phi:
+		// a loop-carried value: every value entering the cycle must qualify
+		if seen[x] {
+			return true, ""
+		}
+		seen[x] = true
+		depth--
 		for _, e := range x.Edges {
-			if ok, why := sepTerminated(c, e, allowEmpty, depth+1); !ok {
+			if ok, why := sepTerminatedSeen(c, e, allowEmpty, depth+1, seen); !ok {
 				return false, why
 			}
 		}
@@ -500,7 +510,7 @@ func sepTerminated(c *Ctx, v ssa.Value, allowEmpty bool, depth int) (bool, strin
 				return false, "no assignment found for the prefix variable"
 			}
 			for _, s := range stores {
-				if ok, why := sepTerminated(c, s.Val, true, depth+1); !ok {
+				if ok, why := sepTerminatedSeen(c, s.Val, true, depth+1, seen); !ok {
 					return false, why + " (assigned at " + c.pos(s) + ")"
 				}
 			}
